@@ -7,6 +7,11 @@ Correspondence (per fit, evaluated inside Coq on the same inputs):
   (D) `score_samples` of the model (exact rationals on the observed facet equations) vs. the
       implementation's distances for training samples and footprint queries (rtol 1e-9)
 and the oracle contract h1-h3 is validated numerically on every fit (residuals recorded).
+Round 3 families: samples sharing their position (stack_points; 1-D: `lower_1d_case_ok`, the
+complete decision procedure of Model/DCHExt.v), added samples inserted at random indices /
+directly above a sample, fits on an estimator object that already had another life (history),
+queries scored before the training set, and lives of one object (fit / set low_dim_idx /
+score) compared by outcome code with `run_life` inside Coq.
 The Python oracle (exact brute-force lower hull, supporting-hyperplane form) is used only to
 search for a failing input when something disagrees.
 """
@@ -67,6 +72,38 @@ def gen_queries(rng, P, F, d, k):
     return out
 
 
+def stack_points(rng, P, d, want, sign=None):
+    """samples sharing their position with an existing sample (different target), inserted at
+    random indices; returns (new P, indices of the inserted samples in the new P)."""
+    P2 = [list(p) for p in P]
+    fresh = []
+    for _ in range(4 * want):
+        if len(fresh) >= want:
+            break
+        i = rng.randrange(len(P2))
+        sg = sign if sign is not None else rng.choice([-1, 1])
+        q = [P2[i][0] + sg * rng.randint(1, 30)] + list(P2[i][1:])
+        if not H.gp_ok_new_stacked(P2, q, d):
+            continue
+        k = rng.randrange(len(P2) + 1)
+        P2.insert(k, q)
+        fresh = [j + (j >= k) for j in fresh] + [k]
+    return P2, sorted(fresh)
+
+
+def gen_history(rng):
+    """an earlier life for the estimator object: other data, other hull columns / feature count /
+    tolerance (fit + scoring), after which the object is re-parametrised and refitted."""
+    d0 = rng.choice([1, 1, 2])
+    n0 = rng.randint(d0 + 2, 9)
+    P0, _ = H.gen_points(rng, d0, n0, 20, rng.choice(H.YKINDS), 60)
+    h0 = rng.randint(0, 2)
+    low0, nfeat0 = H.layout(rng, d0, h0)
+    hd0 = [[rng.randint(-9, 9) for _ in range(h0)] for _ in range(n0)]
+    return dict(X=H.build_X(P0, low0, nfeat0, hd0), y=[p[0] for p in P0], low=low0,
+                tol=rng.choice([None, 1e-6, 1e-3]), score=rng.random() < 0.7)
+
+
 def gen_group(rng, quick):
     """a base sample set with footprint queries, plus two metamorphic variants."""
     r = rng.random()
@@ -81,7 +118,14 @@ def gen_group(rng, quick):
         d, R = 3, 20
         n = rng.randint(5, 12)
     ykind = rng.choice(H.YKINDS)
-    P, rej = H.gen_points(rng, d, n, R, ykind, 60 if R <= 60 else R)
+    # samples that share their position with another sample (the lower one wins, whatever the
+    # order): part of the budget of n, inserted at random indices
+    nstack = rng.randint(1, 3) if (n <= 30 and n >= d + 4 and rng.random() < 0.4) else 0
+    P, rej = H.gen_points(rng, d, n - nstack, R, ykind, 60 if R <= 60 else R)
+    stacked = []
+    if nstack:
+        P, stacked = stack_points(rng, P, d, nstack)
+        n = len(P)
     h = rng.randint(0, 3)
     low, nfeat = H.layout(rng, d, h)
     hd = [[rng.randint(-9, 9) for _ in range(h)] for _ in range(n)]
@@ -94,28 +138,43 @@ def gen_group(rng, quick):
     for q in queries:
         q["hd"] = [rng.randint(-9, 9) for _ in range(h)]
     base = dict(variant="base", d=d, n=n, h=h, low=low, nfeat=nfeat, P=P, hd=hd, tol=tol,
-                ykind=ykind, queries=queries, rejected=rej)
+                ykind=ykind, queries=queries, rejected=rej, stacked=stacked)
     if n > 40:
         base["dsub"] = rng.sample(range(n), 24)
     fits = [base]
-    # added points strictly above the hull, at integer positions inside the footprint
-    extra, tries = [], 0
+    # added points strictly above the hull, at integer positions inside the footprint or
+    # directly above an existing sample, inserted at random indices
+    Pa, new_idx, tries = [list(p) for p in P], [], 0
     want = rng.randint(1, 3)
     lo = [min(p[1 + c] for p in P) for c in range(d)]
     hi = [max(p[1 + c] for p in P) for c in range(d)]
-    while len(extra) < want and tries < 60:
+    while len(new_idx) < want and tries < 60:
         tries += 1
-        x = [rng.randint(lo[c], hi[c]) for c in range(d)]
-        inside, s = H.surface_at(P, F, x)
-        if not inside:
-            continue
-        cand = [int(s // 1) + rng.randint(1, 30)] + x
-        if cand[0] > s and H.gp_ok_new(P + extra, cand, d):
-            extra.append(cand)
-    if extra:
+        if n <= 30 and rng.random() < 0.4:
+            i = rng.randrange(len(Pa))
+            cand = [Pa[i][0] + rng.randint(1, 30)] + list(Pa[i][1:])
+        else:
+            x = [rng.randint(lo[c], hi[c]) for c in range(d)]
+            inside, s = H.surface_at(P, F, x)
+            if not inside:
+                continue
+            cand = [int(s // 1) + rng.randint(1, 30)] + x
+            if not cand[0] > s:
+                continue
+        if H.gp_ok_new_stacked(Pa, cand, d):
+            k = rng.randrange(len(Pa) + 1) if n <= 40 else len(Pa)
+            Pa.insert(k, cand)
+            new_idx = [j + (j >= k) for j in new_idx] + [k]
+    if new_idx:
+        new_idx = sorted(new_idx)
+        hda, it = [], iter(hd)
+        for j in range(len(Pa)):
+            hda.append([rng.randint(-9, 9) for _ in range(h)] if j in new_idx else next(it))
         ab = dict(base)
-        ab.update(variant="above", P=P + extra, n=n + len(extra),
-                  hd=hd + [[rng.randint(-9, 9) for _ in range(h)] for _ in extra], n_base=n)
+        ab.update(variant="above", P=Pa, n=len(Pa), hd=hda, n_base=n, new_idx=new_idx,
+                  stacked=sorted(set(j + sum(1 for k in new_idx if k <= j) for j in stacked)))
+        if n > 40:
+            ab["dsub"] = base["dsub"]
         fits.append(ab)
     # positive affine map of the target
     a, c = rng.choice([1, 2, 3, 5]), rng.randint(-50, 50)
@@ -123,6 +182,11 @@ def gen_group(rng, quick):
     af.update(variant="affine", a=a, c=c, P=[[a * p[0] + c] + p[1:] for p in P],
               queries=[dict(q, y=float(a * Fraction(q["y"]) + c)) for q in queries])
     fits.append(af)
+    # histories: some fits are made on an estimator object that already had another life
+    for f in fits:
+        if rng.random() < 0.3:
+            f["history"] = gen_history(rng)
+        f["queries_first"] = rng.random() < 0.3
     return fits
 
 
@@ -154,7 +218,8 @@ def case_arrays(case):
 
 def run_impl(case):
     X, y, qrows = case_arrays(case)
-    return H.observe(X, y, case["low"], case["tol"], qrows)
+    return H.observe(X, y, case["low"], case["tol"], qrows, history=case.get("history"),
+                     queries_first=case.get("queries_first", False))
 
 
 # ---------------------------------------------------------------------------- oracle (search)
@@ -216,8 +281,12 @@ def oracle_group(fits, recs):
     for c, r in zip(fits[1:], recs[1:]):
         if "error" in r:
             continue
-        if c["variant"] == "above" and r["sel"] != rb["sel"]:
-            return "adding points strictly above the hull changed the selection %s -> %s" % (rb["sel"], r["sel"]), None
+        if c["variant"] == "above":
+            new = c.get("new_idx", list(range(c["n_base"], c["n"])))
+            back = [j - sum(1 for k in new if k < j) for j in r["sel"] if j not in new]
+            if any(j in new for j in r["sel"]) or back != rb["sel"]:
+                return ("adding points strictly above the hull (at indices %s) changed the selection %s -> %s"
+                        % (new, rb["sel"], r["sel"])), None
         if c["variant"] == "affine":
             if r["sel"] != rb["sel"]:
                 return "positive affine map of y changed the selection %s -> %s" % (rb["sel"], r["sel"]), None
@@ -267,7 +336,13 @@ def case_coq(case, rec, with_found):
     spec = n <= SPEC_NMAX[d]
     out = ["sel_model_ok FS SEL"]
     out.append("sel_spec_ok LOW XZ YZ SEL" if spec else "true")
-    if d == 1:
+    pos = [tuple(p[1:]) for p in case["P"]]
+    has_stack = len(set(pos)) < len(pos)
+    if d == 1 and has_stack:
+        # samples sharing a position: the chain needs strictly increasing x; use the complete
+        # 1-D decision procedure of Model/DCHExt.v (C19_lower_vertex_1d_any) instead
+        out.append("lower_1d_case_ok LOW XZ YZ SEL")
+    elif d == 1:
         perm = sorted(range(n), key=lambda i: case["P"][i][1])
         out.append("chain_case_ok LOW XZ YZ %s SEL" % C.natlist(perm))
     else:
@@ -295,7 +370,7 @@ def case_coq(case, rec, with_found):
                H.facets_lit(rec), C.natlist(rec["sel"]), C.natlist(case["low"]), C.zmat(X), C.zlist(y),
                ";\n   ".join(out), args, ("\n ++ dist_found_oks " + args) if with_found else ""))
     npts = len(obs)
-    return txt, dict(spec=spec, chain=(d == 1), atol=atol, npts=npts, skipped_ill=len(qrows) - len(qkeep),
+    return txt, dict(spec=spec, chain=(d == 1), has_stack=has_stack, atol=atol, npts=npts, skipped_ill=len(qrows) - len(qkeep),
                      nverdicts=3 + (1 + npts) * (2 if with_found else 1), sub=sub)
 
 
@@ -305,7 +380,7 @@ CHECK_NAMES = ["(M) model selection on observed facets", "(S) specification lowe
 
 def run(ctx):
     po = C.proof_obligations(ctx.prop)
-    ngroups = 100 if ctx.quick else 1000
+    ngroups = 100 if ctx.quick else 750      # thorough: ~18 min on an idle machine
     groups, fits, recs, gid = [], [], [], []
     stats = dict(hull_dims={}, variants={}, ykinds={}, n_hist={}, extra_cols={}, tol={},
                  rejected_degenerate_draws=0, errors=0, queries={}, spec_checked=0, chain_checked=0, distance_points=0, ill_conditioned_queries_skipped=0,
@@ -346,7 +421,11 @@ def run(ctx):
         for k in ("h1", "h2", "h3"):
             stats["contract"][k] = max(stats["contract"][k], cr[k])
         stats["contract"]["min_abs_ny"] = min(stats["contract"]["min_abs_ny"], cr["min_abs_ny"])
-        if cr["h1"] > EPS_CONTRACT or cr["h2"] > EPS_CONTRACT or cr["h3"] > EPS_CONTRACT or cr["n_lower"] == 0:
+        stats["contract"]["simplex_det_zero"] = stats["contract"].get("simplex_det_zero", 0) + cr["simplex_det_zero"]
+        if cr["gp_min_gap"] is not None:
+            stats["contract"]["gp_min_gap"] = min(stats["contract"].get("gp_min_gap", 1.0), cr["gp_min_gap"])
+        if (cr["h1"] > EPS_CONTRACT or cr["h2"] > EPS_CONTRACT or cr["h3"] > EPS_CONTRACT or cr["n_lower"] == 0
+                or cr["simplex_det_zero"] > 0):
             contract_bad.append(i)
     # correspondence inside Coq
     idx = [i for i, r in enumerate(recs) if "error" not in r]
@@ -369,7 +448,7 @@ def run(ctx):
         shard_groups.append(cur)
     for g in shard_groups:
         body = " ++\n ".join(texts[i] for i in g)
-        shards.append(C.SHARD_HEAD + "From Coq Require Import QArith.\nFrom Verif Require Import ListX DCH.\n"
+        shards.append(C.SHARD_HEAD + "From Coq Require Import QArith.\nFrom Verif Require Import ListX DCH DCHExt.\n"
                       "Definition verdicts : list bool :=\n %s.\n"
                       "Eval vm_compute in (length verdicts, failing verdicts).\n" % body)
     t_c0 = ctx.elapsed()
@@ -397,6 +476,43 @@ def run(ctx):
                     else:
                         found_failed.setdefault(i, []).append(j - 4 - npts)
             off += nv
+    # lives of one estimator object (guards, failed / repeated fits, parameters changed between
+    # calls): outcome codes of the implementation vs. Model/DCHExt.v run_life, inside Coq
+    nlives = 150 if ctx.quick else 1500
+    lives = [H.gen_life(ctx.rng) for _ in range(nlives)]
+    life_codes = [H.run_life(lf) for lf in lives]
+    life_shard = (C.SHARD_HEAD + "From Coq Require Import ZArith QArith List.\nImport ListNotations.\n"
+                  "From Verif Require Import ListX DCH DCHExt.\nDefinition verdicts : list bool :=\n [%s].\n"
+                  "Eval vm_compute in (length verdicts, failing verdicts).\n"
+                  % ";\n  ".join(H.life_lit(lf, cd) for lf, cd in zip(lives, life_codes)))
+    (lrc, lout), = C.run_shards(ctx.prop, [life_shard], timeout=600)
+    m = re.search(r"=\s*\((\d+)%nat,\s*\[(.*?)\]%?(?:nat)?\)", lout.replace("\n", " "))
+    life_bad = []
+    if lrc != 0 or not m or int(m.group(1)) != nlives:
+        corr_broken.append(lout[-1500:])
+    else:
+        life_bad = [int(x) for x in re.findall(r"\d+", m.group(2))]
+    hist = {}
+    for cd in life_codes:
+        for c in cd:
+            hist[str(c)] = hist.get(str(c), 0) + 1
+    stats["object_lives"] = dict(n=nlives, operations=sum(len(lf["ops"]) for lf in lives),
+                                 outcome_codes=hist, disagreeing=len(life_bad),
+                                 with_failed_refit_then_score=sum(
+                                     1 for cd, lf in zip(life_codes, lives)
+                                     if any(a in (1, 2) and o[0] == "fit" for a, o in
+                                            zip(cd, [o for o in lf["ops"] if o[0] != "set"]))))
+    for k in life_bad[:3]:
+        C.report_violation(ctx, "correspondence DCH object model vs implementation broken: life of one estimator "
+                           "object gives outcome codes %s, the model (Model/DCHExt.v run_life) gives %s"
+                           % (life_codes[k], H.life_model(lives[k])),
+                           dict(case=dict(life=lives[k]), observed=life_codes[k]), found_input=False)
+    stats["fits_on_reused_object"] = sum(1 for c in fits if c.get("history"))
+    stats["fits_scored_queries_first"] = sum(1 for c in fits if c.get("queries_first"))
+    stats["fits_with_shared_positions"] = sum(1 for i in idx if infos[i]["has_stack"])
+    stats["fits_with_shared_positions_1d_decision"] = sum(1 for i in idx if infos[i]["has_stack"] and fits[i]["d"] == 1)
+    stats["above_inserted_not_last"] = sum(1 for c in fits if c["variant"] == "above" and c.get("new_idx")
+                                           and c["new_idx"][0] < c["n"] - len(c["new_idx"]))
     stats["fits_with_mask_as_found_evaluated"] = sum(1 for i in idx if i < 45)
     stats["mask_as_found_disagrees_on_fits"] = len(found_failed)
     stats["mask_repaired_disagrees_on_fits"] = sum(1 for v in failed.values() if any(w.startswith("(D)") for w in v))
@@ -416,7 +532,7 @@ def run(ctx):
                 C.report_violation(ctx, "C19 fails on the implementation: " + msg, rep, key=key, found_input=True)
         elif i in contract_bad:
             rep["contract"] = recs[i].get("contract")
-            C.report_violation(ctx, "qhull oracle contract h1-h3 violated beyond %g" % EPS_CONTRACT, rep,
+            C.report_violation(ctx, "qhull oracle contract h1-h3 (or simplicial kept facets) violated beyond %g" % EPS_CONTRACT, rep,
                                found_input=False)
         else:
             rep["note"] = "model and implementation disagree but the brute-force oracle accepts the output"
@@ -464,11 +580,17 @@ def run(ctx):
     return C.finish(ctx, "proof", cov,
                     ["qhull's facets satisfy h1-h3 (validated numerically per fit)",
                      "exact-arithmetic model; binary64 rounding is covered only by the rtol 1e-9 comparison",
-                     "general position of the samples (enforced by the generator)"])
+                     "general position of the samples w.r.t. the hull and simplicial kept facets (enforced by the "
+                     "generator; samples may share a position with ONE other sample; simplex clause validated exactly per fit)",
+                     "object model: outcomes of arbitrary lives, numeric results for successful fits with non-negative low_dim_idx"])
 
 
 def replay(ctx, obj):
     c = obj["case"]
+    if "life" in c:
+        got, want = H.run_life(c["life"]), H.life_model(c["life"])
+        print("replay: life outcome codes", got, "model", want)
+        return 1 if got != want else 0
     r = run_impl(c)
     msg, key = oracle_fit(c, r)
     if not msg and obj.get("group"):
